@@ -48,13 +48,15 @@ def project(m, workdir=None):
     def rename(n):
         if not m.has_node(n):
             return n            # e.g. observed data left behind for a node that no longer exists
-        st = m.get_state(n)["attr_dict"]
+        st = m.get_state(n).get("attr_dict") or {}
         if n.startswith("_") and "_output" in st and isinstance(st["_output"], Sym):
             return st["_output"].t[1]
         return n
     nodes, priv, params = [], [], []
     for n in m.nodes:
-        st = m.get_state(n)["attr_dict"]
+        st = m.get_state(n).get("attr_dict")
+        if not st or "_class" not in st:
+            continue        # a graph node without a node state is no node of the model: its edges then dangle (inconsistent graph)
         kind = KIND_OF_CLASS.get(st["_class"].__name__, "?")
         if kind == "const":
             op = 0
